@@ -76,8 +76,8 @@ theorem cloneHeader_keeps_e2e (canon : String → String) (hop : List String) (h
 judge evaluates on the backend's observation (for any `canon` that fixes the canonical
 hop names, as `textproto.CanonicalMIMEHeaderKey` does). -/
 theorem cloneHeader_meets_spec (canon : String → String) (h : Hdr)
-    (hc : ∀ k ∈ hopHeaders, canon k = k) :
-    Spec.headerViolation canon h (cloneHeader canon hopHeaders h) [] = none := by
+    (hc : ∀ k ∈ hopHeaders, canon k = k) (skip : List String := []) :
+    Spec.headerViolation canon h (cloneHeader canon hopHeaders h) skip = none := by
   have hmap : hopHeaders.map canon = hopHeaders := by
     have : ∀ l : List String, (∀ k ∈ l, canon k = k) → l.map canon = l := by
       intro l; induction l with
@@ -1683,5 +1683,178 @@ twice, and the next two overlapping responses (readers 1 and 2) get the same wri
 example : (gzRun true [.new, .close 0, .close 0, .new, .new]).writers = [0, 0, 0] ∧
     (gzRun false [.new, .close 0, .close 0, .new, .new]).writers = [0, 1, 2] := by decide
 
+
+/-! ### The judges' executable specifications accept the model (`observed = model ∧ model ⊨ spec ⇒ observed ⊨ spec`) -/
+
+section accept
+variable {β : Type} (ops : BodyOps β)
+
+/-! header algebra: every operation acts key-wise -/
+
+theorem hdr_get_del_eq (h : Hdr) (k k' : String) : Hdr.get (Hdr.del h k') k = if k = k' then [] else Hdr.get h k := by
+  by_cases hk : k = k'
+  · subst hk; simp [Hdr.get_del_same]
+  · simp [hk, Hdr.get_del_other h hk]
+
+theorem hdr_get_set_eq (h : Hdr) (k k' v : String) : Hdr.get (Hdr.set h k' v) k = if k = k' then [v] else Hdr.get h k := by
+  by_cases hk : k = k'
+  · subst hk; simp [Hdr.get_set_same]
+  · simp [hk, Hdr.get_set_other h v hk]
+
+theorem hdr_get_add_eq (h : Hdr) (k k' v : String) :
+    Hdr.get (Hdr.add h k' v) k = Hdr.get h k ++ (if k = k' then [v] else []) := by
+  unfold Hdr.add
+  rw [Hdr.get_append]
+  by_cases hk : k = k'
+  · subst hk; simp [Hdr.get]
+  · have : (k' == k) = false := by simp; exact fun h => hk h.symm
+    simp [hk, Hdr.get, this]
+
+/-- `adaptHeader` acts key-wise: what it leaves under `k` depends only on what was under `k`. -/
+theorem get_adaptHeader_congr (a : AdSpec) (h1 h2 : Hdr) (k : String) (h : h1.get k = h2.get k) :
+    (adaptHeader a h1).get k = (adaptHeader a h2).get k := by
+  unfold adaptHeader
+  simp only []
+  have hdel : ∀ (ks : List String) (x y : Hdr), x.get k = y.get k → (x.delAll ks).get k = (y.delAll ks).get k := by
+    intro ks x y hxy; rw [Hdr.get_delAll, Hdr.get_delAll, hxy]
+  have hset : ∀ (kvs : List (String × String)) (x y : Hdr), x.get k = y.get k →
+      (kvs.foldl (fun h kv => h.set kv.1 kv.2) x).get k = (kvs.foldl (fun h kv => h.set kv.1 kv.2) y).get k := by
+    intro kvs
+    induction kvs with
+    | nil => intro x y hxy; exact hxy
+    | cons kv t ih => intro x y hxy; simp only [List.foldl_cons]; apply ih; rw [hdr_get_set_eq, hdr_get_set_eq, hxy]
+  have hadd : ∀ (kvs : List (String × String)) (x y : Hdr), x.get k = y.get k →
+      (kvs.foldl (fun h kv => h.add kv.1 kv.2) x).get k = (kvs.foldl (fun h kv => h.add kv.1 kv.2) y).get k := by
+    intro kvs
+    induction kvs with
+    | nil => intro x y hxy; exact hxy
+    | cons kv t ih => intro x y hxy; simp only [List.foldl_cons]; apply ih; rw [hdr_get_add_eq, hdr_get_add_eq, hxy]
+  exact hadd _ _ _ (hset _ _ _ (hdel _ _ _ h))
+
+theorem adaptorCore_hdr_other (a : AdSpec) (r : Resp β) (k : String) (h1 : k ≠ keyCL) (h2 : k ≠ keyCE) :
+    (adaptorCore ops a r).hdr.get k = r.hdr.get k := by
+  obtain ⟨st, h, cl, pl⟩ := r
+  cases pl <;>
+  · simp only [adaptorCore, adaptorBody, adaptorCompress, adaptorDecompress]
+    repeat' split
+    all_goals simp_all [Hdr.get_set_other, Hdr.get_del_other]
+
+/-- **`e2e` / `unit` request side.** What `run` shows the backend meets `Spec.reqSideOK` against the request as the
+RequestAdaptor left it: method, URL, Host (`expectedHost`) and the header specification (`headerViolation`, with any
+list of skipped framing keys). Hypotheses the judge relies on, explicit: `canon` fixes the canonical hop names, and the
+scenario's "server is IP-addressed" flag is the negation of what `checkAddrPattern` computed for the server URL. -/
+theorem run_meets_backendSeenOK (canon : String → String) (cfg : Cfg) (q : ClientReq β) (m : ReqMsg β)
+    (seen : BackendSeen β) (skip : List String) (serverIsIP : Bool)
+    (hc : ∀ k ∈ hopHeaders, canon k = k) (hip : serverIsIP = !cfg.server.addrIsHostName)
+    (h : prepare ops canon cfg q = .ready m seen) :
+    let l : ReqLine := match cfg.reqAd with
+      | none => ⟨q.method, q.path, q.escapedPath, q.host⟩
+      | some _ => adaptReqLine cfg.σ cfg.esc cfg.reqLine ⟨q.method, q.path, q.escapedPath, q.host⟩
+    Spec.reqSideOK canon l.method (targetURL cfg.server.url l.escapedPath q.rawQuery) m.hdr skip serverIsIP cfg.server.keepHost
+      l.host cfg.server.hostPort seen.method seen.url seen.host seen.hdr = true := by
+  unfold prepare at h
+  dsimp only at h
+  split at h
+  · cases h
+  · split at h
+    · cases h
+    · simp only [Prepared.ready.injEq] at h
+      obtain ⟨h1, h2⟩ := h
+      subst h1; subst h2
+      rename_i m' _
+      have hv := cloneHeader_meets_spec canon m'.hdr hc skip
+      cases hra : cfg.reqAd <;> simp [Spec.reqSideOK, hip, hv, hostSent, Spec.expectedHost]
+
+/-- **`e2e` response side (and the misses of `hist`).** When the Proxy succeeds, the response leaving the pipeline meets
+`Spec.clientSeenOK`: the backend's status, the backend's end-to-end header lines `H` after the configured
+ResponseAdaptor header section, and correct framing. Explicit hypotheses (the generator's well-formedness): `H` is the
+reply's header without the framing / encoding keys; neither `H` nor the adaptor's header section names
+Content-Length / Content-Encoding / Vary; the response is well-framed (`e2e_response_well_framed` in buffered mode,
+`e2e_response_well_framed_stream` for an honest backend). -/
+theorem run_meets_clientSeenOK (canon : String → String) (cfg : Cfg) (q : ClientReq β) (reply : BackendReply β)
+    (seen : BackendSeen β) (cl : Resp β) (H : Hdr)
+    (hH : ∀ k, k ≠ keyCL → k ≠ keyCE → k ≠ keyVary → H.get k = reply.hdr.get k)
+    (hE : ∀ k ∈ (match cfg.respAd with | none => H | some a => adaptHeader a H).map (fun e : String × List String => e.1),
+      k ≠ keyCL ∧ k ≠ keyCE ∧ k ≠ keyVary)
+    (hwf : WellFramed ops cl)
+    (hr : run ops canon cfg q reply = .proxied seen cl true) :
+    Spec.clientSeenOK reply.status (match cfg.respAd with | none => H | some a => adaptHeader a H)
+      cl.status cl.hdr (ops.len cl.payload.content) = true := by
+  obtain ⟨m, _, h | ⟨r2, hpr, hcl, _⟩⟩ := run_proxied ops canon cfg q reply seen cl true hr
+  · exact absurd h.2.2 (by decide)
+  · have hst := (run_status_headers ops canon cfg q reply seen cl hr).1
+    have hfr : Spec.framedOKL (cl.hdr.get keyCL) (ops.len cl.payload.content) = true := by
+      have := (wellFramedB_iff ops cl).mpr hwf
+      simpa [Spec.framedOKL, wellFramedB] using this
+    simp only [Spec.clientSeenOK, hst, beq_self_eq_true, Bool.true_and, hfr, Bool.and_true, Option.isNone_iff_eq_none]
+    unfold Spec.respHeaderViolation
+    rw [List.find?_eq_none]
+    intro k hk
+    obtain ⟨k1, k2, k3⟩ := hE k hk
+    have hr2 := (proxyResp_status_hdr ops cfg q.method seen.hdr reply r2 k k1 k2 k3 hpr).2
+    simp only [bne_iff_ne, ne_eq, Decidable.not_not]
+    subst hcl
+    unfold downstream adaptorChain
+    cases hra : cfg.respAd with
+    | none => simp only [List.foldl_nil]; rw [hr2, hH k k1 k2 k3]
+    | some a =>
+      simp only [List.foldl_cons, List.foldl_nil]
+      unfold adaptorHandle
+      rw [adaptorCore_hdr_other ops a _ k k1 k2]
+      exact get_adaptHeader_congr a _ _ k (by rw [hr2, hH k k1 k2 k3])
+
+/-- **`hist`.** Under the hypotheses of `cache_hits_equal_miss` every response of the history — the creating miss and
+every later hit — meets `Spec.hitSameAsMiss` against the miss's response, on any set of header keys. -/
+theorem hist_meets_cacheOK (cfg : CacheCfg) (as : List AdSpec) (c : Cache β) (qq : PoolReq β) (r : Resp β)
+    (hmiss : cacheLoad cfg qq.key qq.method qq.hdr c = none) (hfresh : qq.fresh = some r)
+    (hst : storable ops cfg qq.method qq.hdr r = true)
+    (qs : List (PoolReq β)) (hsame : ∀ q' ∈ qs, q'.key = qq.key ∧ q'.method = qq.method ∧ q'.hdr = qq.hdr)
+    (keys : List String) :
+    ∀ resp ∈ runHistory ops cfg false as c (qq :: qs),
+      Spec.hitSameAsMiss keys (adaptorChain ops as r).status (adaptorChain ops as r).hdr resp.status resp.hdr = true := by
+  intro resp hr
+  have hv := cache_hits_equal_miss ops cfg as c qq r hmiss hfresh hst qs hsame resp hr
+  unfold Resp.view at hv
+  simp only [Prod.mk.injEq] at hv
+  simp [Spec.hitSameAsMiss, hv.1, hv.2.1]
+
+/-- **`conc`.** Each of the overlapping compressed responses, taken alone in the model (no state is shared between
+responses: `gzip_writers_never_shared`), meets `Spec.isolationOK`: its own backend's status, labelled `gzip`, and —
+`run_content_roundtrip` — decoding to its own backend's body. Scenario class of the harness: Proxy `compression:`,
+no adaptors, the client accepts gzip, the backend's reply is not labelled gzip and not shorter than `minLength`. -/
+theorem conc_meets_isolationOK (canon : String → String) (cfg : Cfg) (q : ClientReq β) (reply : BackendReply β)
+    (seen : BackendSeen β) (cl : Resp β) (ml : Nat)
+    (hc : cfg.compression = some ml) (hra : cfg.respAd = none)
+    (hdid : compressDid ml seen.hdr (transportReply ops q.method seen.hdr reply) = true)
+    (hr : run ops canon cfg q reply = .proxied seen cl true) :
+    Spec.isolationOK reply.status cl.status (cl.hdr.get keyCE) true = true := by
+  obtain ⟨m, _, h | ⟨r2, hpr, hcl, _⟩⟩ := run_proxied ops canon cfg q reply seen cl true hr
+  · exact absurd h.2.2 (by decide)
+  · have hst := (run_status_headers ops canon cfg q reply seen cl hr).1
+    have hd : downstream cfg = [] := by simp [downstream, hra]
+    subst hcl
+    simp only [hd, adaptorChain, List.foldl_nil] at hst ⊢
+    have hce : r2.hdr.get keyCE = ["gzip"] := by
+      have h1 : (compressed ops cfg seen.hdr (transportReply ops q.method seen.hdr reply)).hdr.get keyCE = ["gzip"] := by
+        unfold compressed
+        simp only [hc]
+        unfold compressDid at hdid
+        simp only [Bool.and_eq_true, Bool.not_eq_true'] at hdid
+        unfold proxyCompress
+        simp only [hdid.1.1, hdid.1.2, hdid.2, Bool.not_true, Bool.false_eq_true, if_false]
+        rw [Hdr.get_add_other _ _ ne_CE_Vary, Hdr.get_set_same]
+      unfold proxyResp fetchOrFail at hpr
+      generalize compressed ops cfg seen.hdr (transportReply ops q.method seen.hdr reply) = r1 at hpr h1
+      split at hpr
+      · generalize Payload.fetchFailing cfg.dflt (Payload.effLimit cfg.poolMax cfg.proxyMax) _ = o at hpr
+        cases o with
+        | stream => cases hpr; exact h1
+        | ok n => cases hpr
+        | tooLarge => cases hpr
+        | shortRead => cases hpr
+      · rw [(fetchPayload_status_hdr ops _ _ _ _ r2 hpr).2]; exact h1
+    simp [Spec.isolationOK, hst, hce]
+
+end accept
 
 end EgVerif.C03
